@@ -165,7 +165,9 @@ class TerminalModel:
                 self.al_pending[1] -= 1
 
     def _al_refresh(self):
-        self.mem[0x130] = self.al_state | (0x10 if self.al_error else 0)
+        # bit 5: device identification value loaded (ETG.1000.6, AL status)
+        self.mem[0x130] = self.al_state | (0x10 if self.al_error else 0) \
+            | (getattr(self, "al_status_extra", 0) & 0x20)
         self.mem[0x131] = 0
         self.mem[0x134:0x136] = self.al_code.to_bytes(2, "little")
 
@@ -424,6 +426,8 @@ class FakeTransport:
         no = len(self.sent)
         self.sent.append(data)
         fault = self.fault(no, data) if self.fault else {}
+        if fault.get("send_error"):
+            raise OSError(105, "No buffer space available")
         if fault.get("lose"):
             return
         back = self.bus.process_frame(data, fault)
